@@ -50,7 +50,7 @@ ASSUMPTIONS = [
     "calls whose format and arguments disagree are only required not to raise",
     "logging.raiseExceptions keeps its default; the capturing handler does not format at emit time, formatting is attempted by the monitor",
 ]
-MINIMUMS = {"monitor:delivered": 10000, "monitor:tagged": 8000, "monitor:trace-id": 3000, "inherited_trace_ids": 1000, "calls_with_args_under_percent_names": 300, "own_logger_below_root": 500, "calls_outside_scope": 500, "spawned_task_calls": 300, "monitor:unique-identifier": 3000, "forests_with_absorbed_exceptional_exits": 100, "forests_under_a_stamping_log_record_factory": 100}
+MINIMUMS = {"monitor:delivered": 10000, "monitor:tagged": 8000, "monitor:trace-id": 3000, "inherited_trace_ids": 1000, "calls_with_args_under_percent_names": 300, "own_logger_below_root": 500, "calls_outside_scope": 500, "spawned_task_calls": 300, "monitor:unique-identifier": 3000, "forests_with_absorbed_exceptional_exits": 100, "forests_under_a_stamping_log_record_factory": 100, "calls_made_by_resources_while_released": 100}
 JOBS = {"quick": 4, "thorough": 16}
 LEVEL_TEXT = (
     "All forests of up to 3 nodes x {own logger?} x {own trace id?} per node with rotating name classes, and sampled forests up to 2 x 5 nodes, are executed with log calls of every level, "
@@ -110,6 +110,9 @@ def build(forest: list[dict[str, Any]], rng: random.Random) -> list[dict[str, An
                 b["trace_id"] = f"trace-{ti}-{i}" if (ti + i) % 3 else f"tr%s-{ti}-{i}"
             elif (ti + 2 * i + len(tree["parents"])) % 4 == 0:
                 b["trace_id"] = ""  # an empty id is no id: fresh one for an outermost scope, the enclosing one otherwise
+            if tree["kinds"][i] == "ascope" and rng.random() < 0.3:
+                # the scope owns resources that log through the context while they are being released (the scope is still open then)
+                b["disposables"] = [{"yield": [], "enter": "ok", "exit": "ok", "exit_log": log()} for _ in range(rng.choice([1, 2]))]
             if tree.get("exits") and tree["exits"][i]:
                 # the scope is left by an exception / a cancellation which the surrounding code absorbs; log calls that follow
                 # belong to the enclosing scope again
@@ -189,11 +192,16 @@ def log_steps(steps: list[dict[str, Any]], task: str, out: dict[int, tuple[dict[
         if s["op"] == "log":
             out[s["id"]] = (s, task)
         elif s["op"] == "block":
+            for d in s.get("disposables") or []:
+                if d.get("exit_log"):
+                    out[d["exit_log"]["id"]] = (d["exit_log"], task)
+                    RESOURCE_LOGS.add(d["exit_log"]["id"])
             log_steps(s["body"], task, out)
         elif s["op"] == "spawn":
             log_steps(s["body"], s["name"], out)
 
 
+RESOURCE_LOGS: set[int] = set()  # ids of log calls made by resources while they are released
 SEEN_IDS: dict[str, tuple[int, str]] = {}  # every scope identifier this worker process has ever seen -> (forest number, scope)
 RUNS = {"n": 0}
 
@@ -208,6 +216,7 @@ def judge(R: Recorder, forest: list[dict[str, Any]], prog: list[dict[str, Any]],
     blocks: dict[str, tuple[dict[str, Any], str | None]] = {}
     walk_blocks(prog, None, blocks)
     calls: dict[int, tuple[dict[str, Any], str]] = {}
+    RESOURCE_LOGS.clear()
     log_steps(prog, "main", calls)
     sites = record_sites(prog)
     raised = {e[1]: e[2] for e in W.events if e[0] == "log-raised"}
@@ -281,6 +290,8 @@ def judge(R: Recorder, forest: list[dict[str, Any]], prog: list[dict[str, Any]],
             nontrivial = True
         if task != "main":
             R.count("spawned_task_calls")
+        if lid in RESOURCE_LOGS:
+            R.count("calls_made_by_resources_while_released")
         mine = [r for r in recs if token in str(r.msg)]
         msg = None
         err = None
